@@ -42,6 +42,9 @@ def harnesses(tier):
                     hs.append({"id": "nodes/%s/%s/%s/q%d" % (form, "bgzf" if gz else "text", fmt or "asis", qlen),
                                "params": {"kind": "nodes", "form": form, "gz": gz, "fmt": fmt, "qlen": qlen}, "timeout": 900,
                                "twin": (form, gz, fmt, qlen) == ("unstable", 0, None, 1)})
+    for fmt in (None, "conv"):
+        hs.append({"id": "nodes-revorder/stable/text/%s/q2" % (fmt or "asis"), "params": {"kind": "nodes", "form": "stable", "gz": 0, "fmt": fmt, "qlen": 2,
+                                                                                       "revorder": True}, "timeout": 900})
     for form in ("unstable", "stable"):
         first = range(len(UNIVERSE)) if tier == "thorough" else (0, 2)
         for f0 in first:
@@ -95,6 +98,7 @@ def build(params):
         nums = [(a[2 * i], a[2 * i + 1]) for i in range(n)]
         cookies = list(a[2 * n:3 * n + 1])
         recs = F.records_for(form, WALKS, nums)
+        F.GFA_ORDER[0] = list(reversed(list(F.LAY))) if params.get("revorder") else None
         idx, lines = F.run_index(recs, cookies, gz=bool(params["gz"]))
         if params["kind"] == "whole":
             V.run("in.gaf", output="o.gaf")
@@ -150,8 +154,13 @@ def replay(params, model, wd):
     form = params["form"]
     nums = [(a[2 * i], a[2 * i + 1]) for i in range(n)]
     recs = F.records_for(form, WALKS, nums)
+    F.GFA_ORDER[0] = list(reversed(list(F.LAY))) if params.get("revorder") else None
     gfa, gaf, lines = F.write_real(wd, recs, gz=bool(params["gz"]))
-    I.run(gaf, gfa)
+    try:
+        I.run(gaf, gfa)
+    except BaseException as e:  # noqa
+        return {"reproduced": True, "key": "C04:index-exception:%s" % type(e).__name__, "what": "gaftools index raised %r before view could be run" % (e,),
+                "files": {"gaf": lines}}
     out = os.path.join(wd, "o.gaf")
     files = {"gaf": lines}
     if params["kind"] == "whole":
